@@ -49,7 +49,8 @@ CHECKS["C03"] = dict(
     text="Lean theorems over the models of static_allocator, memory_stack, iteration_allocator, memory_pool and memory_pool_collection "
          "(all list types, sources, configurations, upstream environments): try_ functions never throw, emit no upstream event and leave the "
          "arena unchanged; throwing functions never return null; no request size makes the bump-stack bounds check wrap (D20 repair); a failed "
-         "request leaves blocks, free list, top and leak counter as they were. Tied by correspondence with upstream failure injected at every "
+         "request leaves blocks, free list, top and leak counter as they were; memory_pool_collection (Props/C03Coll): allocate_node never returns null, and whatever way it fails "
+         "the ledger of live nodes is untouched and the collection invariant of C01 still holds for it (earlier allocations valid, later requests served). Tied by correspondence with upstream failure injected at every "
          "early call position and exhaustion histories; exception class and handler kind are compared per line.",
     note="count*size overflow of traits-level array functions (D21) is a recorded finding outside the proved statements.",
     technique="Lean 4 proof (case analysis over executable model) + fault-injection correspondence")
